@@ -1,4 +1,6 @@
 import H2T.Lemmas.DomTotal
+import H2T.Lemmas.OvRun
+import H2T.Lemmas.DomFactor
 
 /-! # C11 — width errors: width 0 is TooNarrow; the overflow option removes every TooNarrow source
 
@@ -6,9 +8,11 @@ Status: **partial** — proved for the whole model: width 0 always fails with To
 `allow_width_overflow` every document renders at every width of at least 1** (`overflow_always_renders` for render
 trees, `overflow_pipeline_never_narrow` from the DOM: the only sources of TooNarrow — `width_minus`, the zero-width
 guard and the hard wrap of a character wider than the line — are all disabled by the flag, and nothing else can fail:
-C01's totality).  `width_minus` returns at least the minimum it was asked for.  That allowing overflow never changes a
-rendering that succeeds without it, and the bound on overflowing lines, are decided by correspondence and the search
-oracle. -/
+C01's totality); **allowing overflow never changes a rendering that succeeds without it** (`overflow_noop` for render
+trees incl. tables, `overflow_noop_pipeline` from the DOM: a step-by-step simulation, `Lemmas/OvWrap`, `OvBlock`,
+`OvRun` — the flag is only consulted where the run without it fails, and a zero-width block, which the flag widens to
+one column, can only ever hold markers in a run that succeeds).  `width_minus` returns at least the minimum it was
+asked for.  The bound on overflowing lines is decided by correspondence and the search oracle. -/
 
 namespace H2T.C11
 
@@ -61,6 +65,34 @@ theorem zeroGuard_overflow_ok (b : WB) (cs : List Ch) (h : b.overflow = true) :
 theorem zeroGuard_narrow (b : WB) (c : Ch) (cs : List Ch) (h : b.overflow = false) (hw : b.width = 0) :
     b.zeroGuard (c :: cs) = .error .tooNarrow := by
   simp [WB.zeroGuard, hw, h]
+
+/-- **allowing overflow never changes a rendering that succeeds without it** — every render tree (tables included), every
+    decorator, width and other option -/
+theorem overflow_noop (cfg : Cfg) (d : Deco) (w : Nat) (tree : RNode) (ls : List RLine) (hov : cfg.overflow = false)
+    (h : renderTree cfg d w tree = .ok ls) : renderTree { cfg with overflow := true } d w tree = .ok ls :=
+  renderTree_ov_noop cfg d w tree ls hov h
+
+/-- …and so for the whole pipeline from the DOM: the same lines -/
+theorem overflow_noop_pipeline (cfg : Cfg) (d : Deco) (w : Nat) (useDoc : Bool) (agentCss userCss : Option (List Char))
+    (ci : CharInfo) (depth : Nat) (dom : Node) (ls : List RLine) (hov : cfg.overflow = false)
+    (h : renderDom cfg d w useDoc agentCss userCss ci depth dom = .lines ls) :
+    renderDom { cfg with overflow := true } d w useDoc agentCss userCss ci depth dom = .lines ls := by
+  rw [renderDom_factor] at h ⊢
+  show (match domTree cfg.decorate useDoc agentCss userCss ci depth dom with
+    | .error o => o
+    | .ok tree => treeOutcome (renderTree { cfg with overflow := true } d w tree)) = _
+  cases hd : domTree cfg.decorate useDoc agentCss userCss ci depth dom with
+  | error o => rw [hd] at h; exact h
+  | ok tree =>
+    rw [hd] at h
+    simp only at h ⊢
+    cases hr : renderTree cfg d w tree with
+    | error e => rw [hr] at h; cases e <;> simp [treeOutcome] at h
+    | ok ls' =>
+      rw [hr] at h
+      simp only [treeOutcome] at h
+      injection h with h; subst h
+      rw [overflow_noop cfg d w tree ls' hov hr]; rfl
 
 /-! non-vacuity -/
 example : renderTree {} Deco.plain 0 (.box {} .block [.text {} (strCh "x")]) = .error .tooNarrow := by rfl
